@@ -158,6 +158,35 @@ Proof.
   - destruct (Pnac eq_refl (fun i Hi => proj2 (Hm1 i Hi))) as (_ & P). exact P.
 Qed.
 
+(* resample(spacing): center and orientation kept; internal size * new spacing = the old physical extent *)
+Lemma resample_keeps_extent (sp' : nat -> K) (min_size : Z) :
+  (forall i, (i < D)%nat -> sp' i <> 0) ->
+  let g' := g_resample ceilK leK D (vtab D sp') min_size g in
+  ce g' = ce g /\ di g' = di g /\ acf g' = acf g /\
+  (veqK leK (vtab D sp') (sp g) = false ->
+   (forall i, (i < D)%nat -> leK (zK min_size) (cz (f i) * s i / sp' i) = true) ->     (* no axis clamped *)
+   sp g' = vtab D sp' /\ vmul (fs g') (sp g') = d_extent ceilK D g).
+Proof.
+  intros Hs g'. unfold g', g_resample. destruct (veqK leK (vtab D sp') (sp g)) eqn:E.
+  - split; [|split; [|split]]; auto. discriminate.
+  - cbn [ce di acf sp fs]. split; [|split; [|split]]; auto. intros _ Hc. split; [reflexivity|].
+    unfold d_extent, nK, nZ. cbn [fs sp ce di].
+    assert (EF : map of_Z (map ceilK (vtab D f)) = vtab D (fun i => cz (f i))) by (destruct HD as [-> | ->]; reflexivity).
+    rewrite EF.
+    destruct HD as [-> | ->];
+      pose proof (Hs 0%nat ltac:(lia)); pose proof (Hs 1%nat ltac:(lia)); try pose proof (Hs 2%nat ltac:(lia));
+      pose proof (Hc 0%nat ltac:(lia)) as C0; pose proof (Hc 1%nat ltac:(lia)) as C1; try pose proof (Hc 2%nat ltac:(lia)) as C2;
+      cbn; unfold cz in *;
+      repeat match goal with
+             | |- context [leK (zK min_size) ?e] =>
+               let Hx := fresh in
+               assert (Hx : leK (zK min_size) e = true) by
+                 (first [ (rewrite <- C0; f_equal; field; auto) | (rewrite <- C1; f_equal; field; auto) | (rewrite <- C2; f_equal; field; auto) ]);
+               rewrite Hx; clear Hx
+             end;
+      list_eq; field; auto.
+Qed.
+
 (* ---- crop family: grids built through the origin= route --------------------------------------- *)
 Lemma mk_origin_keeps_samples (size' X : list K) : length size' = D -> length X = D ->
   let g' := mk_origin ceilK D size' (d_itw ceilK D g X) (sp g) (di g) (acf g) in
